@@ -387,12 +387,17 @@ def run_valid_spec(cases):
     return res
 
 
-def run_header_spec(items):
-    """Spec/C13Doc.v doc_header_symbols* (extracted) -> id -> list of names, or None when the model's parser rejects"""
+def run_header_spec(items, what="header"):
+    """Spec/C13Doc.v doc_header_symbols* / Spec/DocWf.v doc_symbols* (extracted) -> id -> list of names, or None when the
+    model's parser rejects"""
     if not os.path.exists(DRIVER_SPEC):
         return None
-    lines = ["(header %s %s %s %s)" % (cid, enc.sx_record("document", doc), enc.sx_runtime(opts, ev), "T" if partial else "F")
-             for cid, doc, opts, ev, partial in items]
+    if what == "header":
+        lines = ["(header %s %s %s %s)" % (cid, enc.sx_record("document", doc), enc.sx_runtime(opts, ev), "T" if partial else "F")
+                 for cid, doc, opts, ev, partial in items]
+    else:
+        lines = ["(symbols %s %s %s)" % (cid, enc.sx_record("document", doc), enc.sx_runtime(opts, ev))
+                 for cid, doc, opts, ev, partial in items]
     if not lines:
         return {}
     res = {}
